@@ -1,7 +1,7 @@
 (* C33 -- property theorems.  [table] is the list of (UTF-8 bytes, mangled name) dumped from
    getSupportedUnicodeCharactersDescriptions() in this run (C33_gen.v, regenerated every run). *)
 From Coq Require Import List Bool Arith NArith Ascii String.
-From C33 Require Import C32Spec C32Model C32Proofs C33Model C33General C33_gen C33Proofs.
+From C33 Require Import C32Spec C32Model C32Proofs C33Model C33General C33_gen C33TableOk C33Proofs.
 Import ListNotations.
 
 (* the mangled name encodes the code point: prefix + four upper-case hexadecimal digits of the UTF-8 decoding *)
